@@ -63,11 +63,15 @@ func (c *verifFaultCtl) Disarm() (trace string, calls int, fired bool) {
 }
 
 // External records a non-database step of an operation (data write, migration callback).
-func (c *verifFaultCtl) External() {
+func (c *verifFaultCtl) External(failed bool) {
 	c.mu.Lock()
 	defer c.mu.Unlock()
 	if c.armed {
-		c.trace = append(c.trace, 'E')
+		if failed {
+			c.trace = append(c.trace, 'e')
+		} else {
+			c.trace = append(c.trace, 'E')
+		}
 	}
 }
 
